@@ -32,10 +32,21 @@
      C06_pipe_ht_hyps_checker_sound   the extracted checker PhtHyps.pht_hyps, which the suite runs on
         every generated image with the tile bytes the GO encoder wrote, is sound for the four
         hypotheses: a reported 1 implies the hypothesis (so hyp_kmax_fit, hyp_ht_block_sizes and
-        hyp_t2_delivers are established for every generated case, not assumed). *)
+        hyp_t2_delivers are established for every generated case, not assumed).
+     C06_pipe_ht_kmax_fit_levels0, C06_pipe_ht_roundtrip_partial2_levels0,
+     C06_pipe_ht_decode_given_delivery2_levels0
+        hyp_kmax_fit is a THEOREM for zero decomposition levels (level-shifted samples within 2^(P-1),
+        RCT outputs within 2^P, Kmax = P resp. P + 1), so both theorems hold there without it.
+     C06_pipe_ht_growth_bound_insufficient
+        why the coefficient-range argument of the MQ pipeline (C04_pipe_coefficients_fit, from the
+        multilevel growth bound 231 * A + 227) cannot discharge hyp_kmax_fit for >= 1 level: for every
+        precision 1..16, level count 1..6 and band that bound is >= 2^Kmax.  The general statement
+        (PhtProofsKmax.pht_kmax_fit_statement) is open: it needs per-band BIBO gains of the composite
+        filters plus a rounding bound; it is tight (1015 of 1023 at 8 bits, HH of depth 5). *)
 From V Require Import Common.Base Pipe.PipeModel Pipe.PipeProofsFront
   PipeHT.PhtModel PipeHT.PhtHyps PipeHT.PhtProofsMain PipeHT.PhtProofsCheck PipeHT.PhtProofsDeliv PipeHT.PhtProofsDelivCheck
-  PipeHT.PhtProofsHyps.
+  PipeHT.PhtProofsHyps PipeHT.PhtProofsKmax.
+Require V.HT.HtProofsLevels V.HT.HtProofsTables.
 
 Theorem C06_pipe_ht_roundtrip_partial : forall p samples, pht_scope p -> samples_ok p samples ->
   let pix := pack_image p samples in
@@ -125,3 +136,43 @@ Example C06_pipe_ht_hyps_checker_nonvacuous :
   (* a damaged tile (first packet's data byte changed) is not accepted *)
   pht_hyps p (pack_image p (repeat 200 16)) [192; 42; 0; 15; 71; 71; 199; 0; 129; 180; 0; 0] = Ok (true, false, true, false).
 Proof. cbv zeta. split; vm_compute; reflexivity. Qed.
+
+Theorem C06_pipe_ht_kmax_fit_levels0 : forall p samples, pht_scope p -> pp_levels p = 0 -> samples_ok p samples ->
+  hyp_kmax_fit p (pack_image p samples).
+Proof. exact pht_kmax_fit_levels0. Qed.
+Print Assumptions C06_pipe_ht_kmax_fit_levels0.
+
+Theorem C06_pipe_ht_roundtrip_partial2_levels0 : forall p samples, pht_scope p -> pp_levels p = 0 -> samples_ok p samples ->
+  let pix := pack_image p samples in
+  hyp_no_zero_block p pix -> hyp_ht_block_sizes p pix ->
+  exists tile, pht_encode_tile p pix = Ok tile /\ pht_decode_tile p tile = Ok pix.
+Proof. exact pht_roundtrip_partial2_levels0. Qed.
+Print Assumptions C06_pipe_ht_roundtrip_partial2_levels0.
+
+Theorem C06_pipe_ht_decode_given_delivery2_levels0 : forall p samples tile, pht_scope p -> pp_levels p = 0 -> samples_ok p samples ->
+  let pix := pack_image p samples in
+  hyp_t2_delivers p pix tile -> pht_decode_tile p tile = Ok pix.
+Proof. exact pht_decode_given_delivery2_levels0. Qed.
+Print Assumptions C06_pipe_ht_decode_given_delivery2_levels0.
+
+(* the 3x2 RGB image of C06_pipe_ht_nonvacuous_rct has zero levels: scope, samples and the two
+   remaining hypotheses hold *)
+Example C06_pipe_ht_levels0_nonvacuous :
+  let p := mkPP 3 2 3 8 false 0 4 4 true 2 0 0 3 in
+  let s := [200; 3; 77; 140; 9; 250; 31; 66; 120; 5; 180; 91; 17; 230; 44; 101; 7; 99] in
+  pht_scope p /\ pp_levels p = 0 /\ samples_ok p s /\
+  hyp_no_zero_block p (pack_image p s) /\ hyp_ht_block_sizes p (pack_image p s).
+Proof.
+  destruct C06_pipe_ht_nonvacuous_rct as (A & B & _ & C & D). cbv zeta.
+  split; [exact A|]. split; [reflexivity|]. split; [exact B|]. split; [exact C | exact D].
+Qed.
+
+Theorem C06_pipe_ht_growth_bound_insufficient : forall rct,
+  forallb (fun P => forallb (fun L => forallb (fun idx =>
+      2 ^ HtProofsLevels.kmax_of L P rct idx <=? 231 * 2 ^ (P - 1) + 227) (HtProofsTables.zrange 0 (3 * L)))
+    (HtProofsTables.zrange 1 6)) (HtProofsTables.zrange 1 16) = true.
+Proof. exact growth_bound_above_kmax. Qed.
+Print Assumptions C06_pipe_ht_growth_bound_insufficient.
+Example C06_pipe_ht_growth_bound_instance :
+  HtProofsLevels.kmax_of 5 8 false 3 = 10 /\ 2 ^ 10 <= 231 * 2 ^ (8 - 1) + 227 /\ 231 * 2 ^ (8 - 1) + 227 = 29795.
+Proof. repeat split; vm_compute; try reflexivity; intro; discriminate. Qed.
